@@ -40,6 +40,14 @@ def main():
             out[n] = digests.library_digest(lib)
         except Exception as exc:
             out[n] = 'ERROR %s: %s' % (type(exc).__name__, exc)
+    by_path = {}
+    if os.environ.get('VMON_ALSO_BY_PATH'):
+        for n in names:
+            try:
+                by_path[n] = digests.library_digest(libs.fresh(os.path.join(
+                    os.environ['pgradd_DATA_DIR'], n, 'library.yaml')))
+            except Exception as exc:
+                by_path[n] = 'ERROR %s: %s' % (type(exc).__name__, exc)
     schemes = {}
     from pgradd.GroupAdd.Scheme import GroupAdditivityScheme
     for n in names:
@@ -51,6 +59,7 @@ def main():
     import pgradd
     sys.stdout.write('\n@@REPORT@@' + json.dumps({
         'digests': out, 'scheme_digests': schemes,
+        'digests_by_path': by_path,
         'opened': sorted(set(opened)),
         'pgradd_file': pgradd.__file__,
         'env': os.environ.get('pgradd_DATA_DIR')}) + '\n')
